@@ -5,7 +5,7 @@
 From Coq Require Import String.
 From Coq Require Import List ZArith NArith Bool Arith Lia.
 Import ListNotations.
-Require Import PyLib Str Md5 AsModel TextModel G_fn_sir G_fn_sir3 RefJun RefValue RefAs.
+Require Import PyLib Str Md5 AsModel TextModel G_fn_sir G_fn_sir3 RefJun RefBase RefAs.
 Notation vstr := RefJun.vstr.
 
 (* "|".join(numbers): a local copy of the helper (so that this file does not depend on the refinement of unrelated functions) *)
